@@ -16,12 +16,16 @@
 //! The subscriber's GET runs inside the real axum router; it is parked at `stream.after_subscribe`
 //! from step g1 to step g2. After the producer finished everything is released and every
 //! subscriber's SSE body is read up to the terminal frame. Verdicts are computed from the frames
-//! received and the raw log, never from timing (the one exception — "the terminal frame itself
-//! never arrived" — needs an idle timeout and is double-checked with a control subscriber).
+//! received and the raw log, never from timing. The one exception — "the terminal frame itself
+//! never arrived" — needs an idle timeout: the reader gives up only when the body was polled and
+//! had nothing ready 2 s after the producer finished (so a starved reader cannot give up early),
+//! and a control subscriber attached afterwards (history only, judged without a clock) decides
+//! whether the stream delivers its terminal frame at all.
 //!
-//! Producer and subscriber run on a per-case tokio runtime whose threads carry a thread-local
-//! hook handler (installed in `on_thread_start`), so no process-global handler is needed and
-//! cases can run on several shards at once.
+//! The producer runs on a per-case tokio runtime whose threads carry a thread-local hook handler
+//! (installed in `on_thread_start`); subscribers and hook-hitting requests run on OS threads of a
+//! small pool that carry the same handler. No process-global handler is needed, so cases run on
+//! several shards at once.
 
 use std::collections::BTreeSet;
 use std::io::Write as _;
@@ -63,8 +67,8 @@ fn exclude_known() -> bool {
 
 /// complete enumeration of the (g1,g2) space up to this many frames; sampled above
 const EXHAUSTIVE_MAX_FRAMES: usize = 8;
-/// runtime workers; at most 1 producer + 3 subscribers (+ 2 noise tasks for threads) are ever
-/// blocked inside a hook / on a store mutex at the same time
+/// runtime workers; at most the producer (+ 2 noise tasks for threads, waiting for a store mutex the
+/// parked producer holds) block a worker at any time — subscribers park pool threads, not workers
 const WORKERS: usize = 10;
 /// give-up budget for any single wait of the driver (⇒ inconclusive, never a verdict)
 const STEP_TIMEOUT: Duration = Duration::from_secs(8);
@@ -626,7 +630,7 @@ struct Env {
     root_thread: Option<String>,
     /// producer points at which a released subscriber did not return (snapshot blocked on a lock
     /// held by the parked producer): the driver does not wait there again in this case
-    blocked_points: BTreeSet<String>,
+    blocked_points: std::collections::BTreeMap<String, u32>,
     serial: u32,
 }
 
@@ -647,7 +651,7 @@ impl Env {
             let _g = rt.enter();
             ripd::verif::build_router(sandbox.data.clone(), sandbox.ws.clone(), None, false)
         };
-        Env { sandbox, router, rt, stepper, pool: Pool::new(6, hook), root_thread: None, blocked_points: BTreeSet::new(), serial: 0 }
+        Env { sandbox, router, rt, stepper, pool: Pool::new(6, hook), root_thread: None, blocked_points: Default::default(), serial: 0 }
     }
 
     /// request executed on the driver thread (no hook handler there: passes every point)
@@ -993,7 +997,6 @@ fn run_once(env: &mut Env, case: &Case, plan: &RunPlan) -> Result<RunResult, Str
     let mut subs: Vec<Option<SubHandle>> = (0..n_plans).map(|_| None).collect();
     let mut started = vec![false; n_plans];
     let mut released = vec![false; n_plans];
-    let mut got_hdr = vec![false; n_plans];
     let mut meta: Vec<(usize, usize, String, String, bool)> =
         (0..n_plans).map(|_| (0, 0, String::new(), String::new(), false)).collect();
     let mut finished_fn = || finished_file.as_ref().map(|p| p.exists()).unwrap_or(false);
@@ -1027,17 +1030,20 @@ fn run_once(env: &mut Env, case: &Case, plan: &RunPlan) -> Result<RunResult, Str
                 meta[i].1 = pos;
                 meta[i].3 = point_name.to_string();
                 let key = point_name.trim_end_matches(char::is_numeric).to_string();
-                let known_blocked = !at_end && env.blocked_points.contains(&key);
+                // three timeouts in a row at one kind of point: it is a lock, stop waiting there
+                let known_blocked = !at_end && env.blocked_points.get(&key).copied().unwrap_or(0) >= 3;
                 let q = if at_end { STEP_TIMEOUT } else if known_blocked { Duration::ZERO } else { SNAPSHOT_QUANTUM };
                 let h = subs[i].as_ref().unwrap();
                 match h.hdr_rx.recv_timeout(q) {
-                    Ok(_) => got_hdr[i] = true,
+                    Ok(_) => {
+                        env.blocked_points.remove(&key);
+                    }
                     Err(_) => {
                         if at_end {
                             return Err("subscriber_no_response_after_end".into());
                         }
                         meta[i].4 = true;
-                        env.blocked_points.insert(key);
+                        *env.blocked_points.entry(key).or_insert(0) += 1;
                     }
                 }
                 trace!("  sub{i} snapshot at {point_name} deferred={}", meta[i].4);
@@ -1210,7 +1216,6 @@ fn run_once(env: &mut Env, case: &Case, plan: &RunPlan) -> Result<RunResult, Str
     for i in 0..n_plans {
         let Some(h) = subs[i].take() else { continue };
         let outcome = env.join_sub(h);
-        let _ = got_hdr[i];
         attaches.push(Attach {
             what: "plan",
             planned: Some(plan.attaches[i]),
@@ -1354,7 +1359,6 @@ fn judge(kind: Kind, run: &RunResult, a: &Attach, control_ok: Option<bool>, repr
         if let Some(missing) = (0..=n_last).find(|s| !seen.contains(s)) {
             let cause = if kind != Kind::Thread
                 && a.what == "plan"
-                && !a.deferred
                 && a.a1 == a.a2
                 && a.a1 < run.end_pos
                 && a.a1 % 2 == 1
@@ -1580,7 +1584,7 @@ fn main() {
     let mut check = Check::new("C06", "exploration");
     check.assume("truth = the frames of the stream in the raw events.jsonl (own reader); a frame a subscriber must see is a frame that is in the log once the producer finished");
     check.assume("the terminal frame of a stream (session_ended / terminal tool_task_status / last appended thread frame) is the last frame in the log; once it arrived on an SSE body, every earlier frame that will ever arrive has arrived (history is sent before live frames, one FIFO broadcast channel per stream)");
-    check.assume("'the terminal frame never arrived' is the only verdict that needs a clock: 2 s of silence after the producer finished AND a control subscriber attached afterwards that does receive it");
+    check.assume("'the terminal frame never arrived' is the only verdict that involves a clock: the body had nothing ready 2 s after the producer finished (every send is complete by then) AND a control subscriber attached afterwards decides, from history alone and without a clock, whether the stream delivers its terminal frame");
     check.assume("task producers are made schedule-independent by a FIFO gate inside the generated shell command (chunk j+1 is printed only after chunk j was read by the output pump)");
     check.assume("thread streams are observed from the moment the thread id is known (after POST /threads/{root}/branch returned): frames 0 and 1 are always history");
     check.extra("exhaustive_within_case", json!(true));
